@@ -27,6 +27,8 @@ H.append({"name":"H_safe","tiers":Q,"scale":"b2","bounds":"B=2: the same with th
   "param_sets":[dict(p,pre=1) for p in grid(2,[3,4],[0,1,2,3,4,5])]})
 H.append({"name":"H_safe_bsdiff","tiers":Q,"scale":"w","bounds":"optimized patch (bsdiff series read through the LRU file on top of the safekeeper; B=4, LRU chunk = patch buffer = 2 as 32 KiB is to 64 KiB, 2 cache entries): pristine old 13..14 concrete bytes, two bytes inserted at 1 / 5 (+ optionally one edited byte), damaged old fully symbolic of the same length or one byte shorter",
   "param_sets":[{"ns":ns,"na":na,"ins":i,"edit":e} for ns in (13,14,17) for na in (ns,ns-1) for i in (1,5) for e in (-1,9)]})
+H.append({"name":"H_safe_bsdiff","tiers":Q,"scale":"w","bounds":"the same with the two halves of a 24..26-byte old file swapped in new (the series reads the old file out of order through one reader seeking backwards), optionally one edited byte; damaged old fully symbolic, same length",
+  "param_sets":[{"ns":ns,"na":ns,"ins":0,"edit":e,"swap":1} for ns in (24,26) for e in (-1,3,15)]})
 H.append({"name":"H_safe_real","tiers":Q,"max_steps":2000000000,"bounds":"REGIME R (no constant scaled: 64 KiB blocks, 32 KiB copy buffers): old file of 3 blocks + 100-byte tail (concrete), new = block 0 rewritten, so one BLOCK_RANGE run over blocks 1..3; one symbolic damaged byte in block 1, 2 or 3 of the run",
   "param_sets":[{"nb":3,"blk":b} for b in (1,2,3)]})
 H.append({"name":"H_safe","tiers":T,"scale":"b4","bounds":"B=4: pristine old in {0,3,4,5,8}, damaged 0..old+B+1","max_seconds":900,"param_sets":grid(4,[0,3,4,5,8],[0,1,2,3])})
